@@ -407,7 +407,7 @@ def run_item(item, tier):
                         _sp.run(argv, cwd=top, check=True, capture_output=True,
                                 env=dict(os.environ, GIT_CONFIG_NOSYSTEM="1", HOME="/nonexistent", GIT_CEILING_DIRECTORIES=driver.scratch_root()))
               art = {"kind": "routes", "deps": deps, "realgit": bool(item.get("realgit")), "nested": nest}
-              with driver.patched([(m["cgit"], "subprocess", vkmod.Facade(__import__("subprocess"), {"run": git.run}))]):
+              with driver.patched(driver.git_seam(git)):
                   idx = TaskIndex(pathlib.Path(root))
                   try:
                       load = idx.load_all_known_tasks(Git(pathlib.Path(root)))
